@@ -29,6 +29,12 @@ EXPLANATION = (
     "helper's statements are walked on its own CFG as part of the caller's path with "
     "the parameters bound to the argument terms, and the returned term replaces the call, "
     "so a step is decided on what it does, not on which function the statements stand in.  "
+    "Expressions are also resolved to the step function's vocabulary (locals and helper parameters read as what "
+    "they were bound to, a followed call as the expression it returned): dispatch_rx_msg is decided on its walked "
+    "paths - a call whose callee resolves to dlci_handler[<DLCI parameter>], written in place or looked up first "
+    "(through a local or a helper), is the handler invocation; at most one per path, arguments (dlci, msg) as "
+    "received, no store to the parameters or the table inside the dispatcher.  An index that is an untested, "
+    "unmodified parameter of a static helper is bounded at every call site of the helper instead.  "
     "The rules compare the two tables "
     "(escaped set, escape octet, XOR constant, flag positions, un-escaping in "
     "every frame-interior state, address/control/payload order), and use CFG "
@@ -161,7 +167,7 @@ def ref_id(n):
 
 class St:
     """State of one walked path."""
-    __slots__ = ("scur", "mask", "pos", "env", "assume", "events", "ret", "frames", "nser", "rtruth")
+    __slots__ = ("scur", "mask", "pos", "env", "assume", "events", "ret", "frames", "nser", "rtruth", "rets")
 
     def __init__(self, scur, assume):
         self.scur = scur          # current value of the state variable
@@ -174,11 +180,12 @@ class St:
         self.frames = []          # helper calls being followed: (call node, CallExpr, helper name, serial)
         self.nser = 0
         self.rtruth = None        # truth of the value a followed helper is returning (None: unknown)
+        self.rets = None          # resolved text (Step.resolve) of the value a followed helper is returning
 
     def copy(self):
         s = St(self.scur, self.assume)
         s.mask, s.pos, s.ret = self.mask, self.pos, self.ret
-        s.frames, s.nser, s.rtruth = list(self.frames), self.nser, self.rtruth
+        s.frames, s.nser, s.rtruth, s.rets = list(self.frames), self.nser, self.rtruth, self.rets
         s.env = dict(self.env)
         s.events = list(self.events)
         return s
@@ -311,6 +318,7 @@ class Step:
             if e[0] == "call":
                 st.env.pop(("ret", id(e[3])), None)
                 st.env.pop(("rett", id(e[3])), None)
+                st.env.pop(("rets", id(e[3])), None)
 
     def enter(self, node, e, st):
         """Follow the helper call e made by `node`: bind the parameters, push a frame; returns the helper's entry."""
@@ -335,11 +343,13 @@ class Step:
                                         "-- unclassifiable" % (self.fname, name, ctext(root)))
                 cur, par = par, self.tu.parent.get(id(par))
         terms = [self.term(a, st) for a in args]
-        for p, t in zip(ps, terms):
+        texts = [self.resolve(a, st) for a in args]
+        for p, t, x in zip(ps, terms, texts):
             st.env[p.get("id")] = t
+            st.env[("txt", p.get("id"))] = x
         st.nser += 1
         st.frames.append((node, call, name, st.nser))
-        st.ret, st.rtruth = None, None
+        st.ret, st.rtruth, st.rets = None, None, None
         return self.graph_of(name).entry
 
     def leave(self, st):
@@ -347,7 +357,8 @@ class Step:
         node, call, name, _ = st.frames.pop()
         st.env[("ret", id(call))] = st.ret if st.ret is not None else ("void",)
         st.env[("rett", id(call))] = st.rtruth
-        st.ret, st.rtruth = None, None
+        st.env[("rets", id(call))] = st.rets
+        st.ret, st.rtruth, st.rets = None, None, None
         return node
 
     def argtext(self, a, st):
@@ -364,6 +375,55 @@ class Step:
         e = strip(e, casts=True)
         return (kind(e) == "UnaryOperator" and e.get("opcode") == "!") or \
             (kind(e) == "BinaryOperator" and e.get("opcode") in CMP + ("&&", "||"))
+
+    # -- resolved expressions ---------------------------------------------
+    def resolve(self, e, st):
+        """Canonical text of an expression in the vocabulary of the step
+        function: every local / helper parameter that was bound on this path
+        reads as the (resolved) expression it was bound to, a followed helper
+        call as the expression it returned.  `rx_cb_lookup(dlci)` returning
+        `table[d]` for its parameter d resolves to `table[dlci]`.  Memory is
+        not versioned: a rule that relies on a resolved lvalue must itself
+        exclude stores to it between the read and the use."""
+        e = strip(e, casts=True)
+        if e is None:
+            return "?"
+        k, ks = kind(e), kids(e)
+        if k == "CallExpr" and st.env.get(("rets", id(e))) is not None:
+            return st.env[("rets", id(e))]
+        i = ref_id(e)
+        if i is not None:
+            if ("txt", i) in st.env:
+                return st.env[("txt", i)]
+            return ctext(e)
+        v = self.tu.fold(e)
+        if v is not None:
+            return str(v)
+        if k == "MemberExpr" and ks:
+            return "%s%s%s" % (self.resolve(ks[0], st), "->" if e.get("isArrow") else ".", e.get("name"))
+        if k == "ArraySubscriptExpr":
+            return "%s[%s]" % (self.resolve(ks[0], st), self.resolve(ks[1], st))
+        if k == "BinaryOperator":
+            return "(%s %s %s)" % (self.resolve(ks[0], st), e.get("opcode"), self.resolve(ks[1], st))
+        if k == "UnaryOperator" and not e.get("isPostfix") and e.get("opcode") in ("!", "-", "~", "*", "&", "+"):
+            return "%s%s" % (e.get("opcode"), self.resolve(ks[0], st))
+        if k == "ConditionalOperator":
+            return "(%s ? %s : %s)" % tuple(self.resolve(c, st) for c in ks[:3])
+        if k == "CallExpr":
+            return "%s(%s)" % (self.resolve(ks[0], st), ", ".join(self.resolve(a, st) for a in ks[1:]))
+        return ctext(e)
+
+    def callee_name(self, call, st):
+        """Name a call event is recorded under: the callee's text; a call
+        through a function-pointer local / helper parameter bound on this
+        path is recorded under the expression the pointer was read from."""
+        f = strip(kids(call)[0], casts=True) if kids(call) else None
+        if kind(f) == "UnaryOperator" and f.get("opcode") == "*":          # (*cb)(...)
+            f = strip(kids(f)[0], casts=True)
+        i = ref_id(f)
+        if i is not None and ("txt", i) in st.env:
+            return st.env[("txt", i)]
+        return ctext(kids(call)[0])
 
     # -- values -----------------------------------------------------------
     def is_subject(self, e):
@@ -548,7 +608,7 @@ class Step:
                     raise AnalysisError("%s(): %s() is called under a short-circuit operand of the condition `%s` -- "
                                         "unclassifiable" % (self.fname, e[1], ctext(c)))
                 cur, par = par, self.tu.parent.get(id(par))
-            st.events.append(("call", e[1], tuple(self.argtext(a, st) for a in e[2]),
+            st.events.append(("call", self.callee_name(e[3], st), tuple(self.argtext(a, st) for a in e[2]),
                               tuple(self.term(a, st) for a in e[2]), node.id, line))
 
     # -- effects of one statement --------------------------------------------
@@ -573,7 +633,7 @@ class Step:
                 name, args = e[1], e[2]
                 if ("ret", id(e[3])) in snap.env:
                     continue                    # a helper whose statements were followed on this path
-                st.events.append(("call", name, tuple(self.argtext(a, snap) for a in args),
+                st.events.append(("call", self.callee_name(e[3], snap), tuple(self.argtext(a, snap) for a in args),
                                   tuple(self.term(a, snap) for a in args), node.id, line))
             elif tag in ("store", "decl"):
                 if tag == "decl":
@@ -603,6 +663,7 @@ class Step:
                     st.events.append(("setptr", ctext(strip(rhs, casts=True)), t, node.id, line))
                 elif lid is not None and (lid not in self.params):
                     st.env[lid] = t
+                    st.env[("txt", lid)] = self.resolve(rhs, snap)
                     st.events.append(("local", ltxt, t, node.id, line))
                 else:
                     st.events.append(("store", ltxt, t, node.id, line, self.lhs_shape(lhs, snap)))
@@ -630,6 +691,7 @@ class Step:
                     lid = ref_id(lhs)
                     if lid is not None and lid in st.env:
                         st.env[lid] = ("expr", "%s %s %s" % (ltxt, op, ctext(rhs)))
+                        st.env[("txt", lid)] = "(%s %s %s)" % (st.env.get(("txt", lid), ltxt), op[:-1], self.resolve(rhs, snap))
                     st.events.append(("compound", ltxt, op, t, node.id, line))
                     self.invalidate(st, ltxt)
             elif tag == "incdec":
@@ -643,6 +705,7 @@ class Step:
                     lid = ref_id(lhs)
                     if lid is not None and lid in st.env:
                         st.env[lid] = ("expr", ltxt + ("++" if d > 0 else "--"))
+                        st.env[("txt", lid)] = "(%s %s 1)" % (st.env.get(("txt", lid), ltxt), "+" if d > 0 else "-")
                     st.events.append(("compound", ltxt, "++" if d > 0 else "--", ("const", 1), node.id, line))
                     self.invalidate(st, ltxt)
             elif tag == "return":
@@ -653,6 +716,7 @@ class Step:
                     if t[0] not in ("const", "octet", "state", "call") and truth is not None and self.boolean_valued(e[1]):
                         t = ("const", int(truth))
                     st.ret, st.rtruth = t, truth
+                    st.rets = self.resolve(e[1], snap) if e[1] is not None else None
                     st.events.append(("hret", st.frames[-1][2], t, node.id, line))
                 else:
                     st.ret = t
@@ -1924,13 +1988,96 @@ def r4_index_bounds(L, tu, tag):
     R = "C06.R4"
     own = own_functions(tu)
     # (c) index bounds
-    count = {HANDLERS: 0, QUEUES: 0}
+    count = {}
+
+    def within(root):
+        """Subscripts examined in `root` and the functions of sercomm.c it calls (a lookup / scan may stand in
+        a helper): the floors are anchored on the functions the property names, not on how many subscript
+        expressions the file happens to contain."""
+        seen, work = set(), [root]
+        while work:
+            f = work.pop()
+            if f in seen or f not in own:
+                continue
+            seen.add(f)
+            for c in walk(tu.body(own[f])):
+                if kind(c) == "CallExpr" and kids(c):
+                    cal = strip(kids(c)[0], casts=True)
+                    if kind(cal) == "DeclRefExpr":
+                        work.append(cal.get("referencedDecl", {}).get("name"))
+        return {b: sum(count.get((f, b), 0) for f in seen) for b in (HANDLERS, QUEUES)}
+
+    graphs = {}
+
+    def graph(fname):
+        if fname not in graphs:
+            graphs[fname] = CCFG(tu, own[fname])
+        return graphs[fname]
+
+    def bound_here(fname, e):
+        """Exclusive upper bound of the expression e where it is evaluated in fname(), from the branch literals."""
+        node = graph(fname).node_of(e)
+        lits = set(graph(fname).guard_lits(node))
+        if node.kind == "cond" and node.cond is not None:
+            lits |= context_lits(tu, node.cond, e)
+        return index_bound(lits, ctext(e))
+
+    def caller_bounds(fname, idx, depth=0):
+        """The index is a parameter of a helper split out of the anchored functions (static, not at the pinned
+        commit) that the helper itself neither tests nor changes: its range is what the call sites pass.
+        -> [(caller, argument text, bound | None, line)] over every call site, or None when this does not apply."""
+        fd = own[fname]
+        ps = [q.get("name") for q in tu.fparams(fd)]
+        ix = strip(idx, casts=True)
+        if fname in BASELINE_FNS or fd.get("storageClass") != "static" or kind(ix) != "DeclRefExpr" \
+                or ix.get("referencedDecl", {}).get("kind") != "ParmVarDecl" or ctext(ix) not in ps or depth >= MAX_HELPER_DEPTH:
+            return None
+        pname = ctext(ix)
+        for n in walk(tu.body(fd)):
+            if kind(n) == "UnaryOperator" and n.get("opcode") == "&" and ctext(kids(n)[0]) == pname:
+                return None
+        if any(e[0] in ("store", "compound", "incdec") and ctext(e[1]) == pname for e in effects(tu.body(fd))):
+            return None
+        out, refs, ncalls = [], 0, 0
+        for cname, cfd in sorted(own.items()):
+            for n in walk(tu.body(cfd)):
+                if kind(n) == "DeclRefExpr" and n.get("referencedDecl", {}).get("name") == fname:
+                    refs += 1
+                if kind(n) != "CallExpr" or not kids(n):
+                    continue
+                cal = strip(kids(n)[0], casts=True)
+                if kind(cal) != "DeclRefExpr" or cal.get("referencedDecl", {}).get("name") != fname:
+                    continue
+                ncalls += 1
+                args = call_args(n)
+                if len(args) != len(ps):
+                    raise AnalysisError("%s(): call of %s() does not match its definition" % (cname, fname))
+                arg = args[ps.index(pname)]
+                cv = tu.fold(arg)
+                if cv is not None:
+                    out.append((cname, ctext(arg), cv + 1 if cv >= 0 else None, tu.line(n)))
+                    continue
+                inner = strip(arg, casts=True)
+                if kind(inner) not in ("DeclRefExpr", "MemberExpr") or not is_unsigned(inner):
+                    raise AnalysisError("%s(): argument `%s` of %s() is used there as an array index; it is not a plain "
+                                        "unsigned variable -- unclassifiable" % (cname, ctext(arg), fname))
+                b = bound_here(cname, inner)
+                if b is None:
+                    up = caller_bounds(cname, inner, depth + 1)
+                    if up is not None:
+                        out += up
+                        continue
+                out.append((cname, ctext(inner), b, tu.line(n)))
+        if refs != ncalls:
+            return None             # the helper's address is taken: not every caller is visible
+        return out
+
     for name, fn in sorted(own.items()):
         g = None
         pn = [p.get("name") for p in tu.fparams(fn)]
         for base in (HANDLERS, QUEUES):
             for sub in subscripts(tu, fn, base):
-                count[base] += 1
+                count[(name, base)] = count.get((name, base), 0) + 1
                 idx = kids(sub)[1]
                 it = ctext(idx)
                 ext = array_extent(strip(kids(sub)[0]).get("type", {}).get("qualType"))
@@ -1951,6 +2098,14 @@ def r4_index_bounds(L, tu, tag):
                 if node.kind == "cond" and node.cond is not None:
                     lits |= context_lits(tu, node.cond, sub)
                 b = index_bound(lits, it)
+                sites = caller_bounds(name, idx) if b is None else None
+                if sites is not None:
+                    # a helper that is never called contributes no behaviour
+                    for (cname, atxt, cb, ln) in sites:
+                        L.ob(R, F, cname, "argument `%s` of %s(), used there as index into %s[], is below the array extent" % (
+                            atxt, name, base.split(".")[-1]), "%s < %d on every path to the call" % (atxt, ext),
+                            "%s < %s" % (atxt, cb) if cb is not None else "no upper bound", cb is not None and cb <= ext, ln)
+                    continue
                 if b is None and kind(strip(idx, casts=True)) not in ("DeclRefExpr", "MemberExpr"):
                     # arithmetic on the counter (`i - 1`, `n - i`): its range is not decided by matching guard literals
                     raise AnalysisError("%s(): index expression `%s` into %s is not a plain variable and no guard bounds it "
@@ -1958,8 +2113,10 @@ def r4_index_bounds(L, tu, tag):
                 L.ob(R, F, name, "index `%s` into %s[] is used only below the array extent" % (it, base.split(".")[-1]),
                      "%s < %d on every path" % (it, ext), "%s < %s" % (it, b) if b is not None else "no upper bound",
                      b is not None and b <= ext, tu.line(sub))
-    L.floor(R, "dlci_handler[] subscripts (%s build)" % tag, count[HANDLERS], 4)
-    L.floor(R, "dlci_queues[] subscripts (%s build)" % tag, count[QUEUES], 3)
+    for (root, base) in (("dispatch_rx_msg", HANDLERS), ("sercomm_register_rx_cb", HANDLERS),
+                         ("sercomm_sendmsg", QUEUES), (TX_FN, QUEUES)):
+        L.floor(R, "%s[] subscripts examined in %s() and the functions it calls (%s build)" % (
+            base.split(".")[-1], root, tag), within(root)[base], 1)
     exts = set()
     for name, fn in own.items():
         for base in (HANDLERS, QUEUES):
@@ -1967,21 +2124,75 @@ def r4_index_bounds(L, tu, tag):
                 exts.add((base.split(".")[-1], array_extent(strip(kids(sub)[0]).get("type", {}).get("qualType"))))
     L.ob(R, F, "sercomm", "dlci_handler[] and dlci_queues[] have the same extent (a DLCI accepted by dispatch_rx_msg is a "
          "valid queue index)", "equal extents", sorted(exts), len({e for (_, e) in exts}) == 1)
-    # dispatch_rx_msg / register
-    fn = tu.func("dispatch_rx_msg")
-    L.fn(F, "dispatch_rx_msg")
-    pn = [p.get("name") for p in tu.fparams(fn)]
-    calls = [c for c in walk(tu.body(fn)) if kind(c) == "CallExpr" and
-             kind(strip(kids(c)[0])) == "ArraySubscriptExpr" and ctext(kids(strip(kids(c)[0]))[0]) == HANDLERS]
-    desc = [(ctext(kids(strip(kids(c)[0]))[1]), [ctext(a) for a in call_args(c)]) for c in calls]
-    L.require(R, F, "dispatch_rx_msg", "the handler registered for the DLCI is invoked once with (dlci, msg) unchanged",
-              [(pn[0], pn)], desc)
+    # register
     fn = tu.func("sercomm_register_rx_cb")
     L.fn(F, "sercomm_register_rx_cb")
     pn = [p.get("name") for p in tu.fparams(fn)]
     st = [(ctext(kids(e[1])[1]), ctext(e[2])) for e in effects(tu.body(fn))
           if e[0] == "store" and kind(e[1]) == "ArraySubscriptExpr" and ctext(kids(e[1])[0]) == HANDLERS]
     L.require(R, F, "sercomm_register_rx_cb", "the callback is registered under its own DLCI", [(pn[0], pn[1])], st)
+
+
+def handler_index(name):
+    """Index text of a call event recorded under `sercomm.rx.dlci_handler[<index>]`, else None."""
+    pre = HANDLERS + "["
+    if not name.startswith(pre) or not name.endswith("]"):
+        return None
+    idx, depth = name[len(pre):-1], 0
+    for c in idx:
+        depth += {"[": 1, "]": -1}.get(c, 0)
+        if depth < 0:
+            return None            # `table[a].x[b]`: not a plain element of the table
+    return idx if depth == 0 else None
+
+
+def r4_dispatch(L, tu, tag):
+    """C06.R4 (dispatch).  Decided on the walked paths of dispatch_rx_msg()
+    (helpers followed), not on where the call is written: a call is a
+    handler invocation when its callee RESOLVES to an element of
+    sercomm.rx.dlci_handler[] -- written in place, or read into a local /
+    returned by a followed helper first.  Every such call must take the
+    element of the DLCI parameter and pass (dlci, msg) on as received, and no
+    path makes more than one."""
+    R = "C06.R4"
+    name = "dispatch_rx_msg"
+    fn = tu.func(name)
+    L.fn(F, name)
+    pn = [p.get("name") for p in tu.fparams(fn)]
+    if len(pn) != 2:
+        raise AnalysisError("%s(): signature changed" % name)
+    stp = Step(tu, name, "<no octet>", "<no state>")
+    tbl = HANDLERS.split(".")[-1]
+    found, most, invoking, line = set(), 0, 0, None
+    for p in stp.paths(0, 0):
+        calls = []
+        for e in p.events:
+            if e[0] in ("loopcut", "loopexit"):
+                raise AnalysisError("%s(): loop -- the number of handler invocations is unclassifiable" % name)
+            if e[0] in ("store", "compound") and (e[1] in pn or ident_count(e[1], tbl)):
+                # the values received / the handler table change under the dispatcher's feet: what a later (or an
+                # already resolved) handler call sees is not decided by comparing expressions
+                raise AnalysisError("%s(): `%s` is written inside the dispatcher -- unclassifiable" % (name, e[1]))
+            if e[0] != "call":
+                continue
+            idx = handler_index(e[1])
+            if idx is None:
+                if ident_count(e[1], tbl):
+                    raise AnalysisError("%s(): call through `%s` -- not a plain element of the handler table, "
+                                        "unclassifiable" % (name, e[1]))
+                continue
+            args = [t[1] if t[0] == "expr" else str(t[1]) if t[0] == "const" else txt for (t, txt) in zip(e[3], e[2])]
+            calls.append((idx, tuple(args)))
+            line = line or e[5]
+        most = max(most, len(calls))
+        invoking += 1 if calls else 0
+        found |= set(calls)
+    L.floor(R, "paths of %s() that invoke a DLCI handler (%s build)" % (name, tag), invoking, 1)
+    desc = [(i, list(a)) for (i, a) in sorted(found)]
+    if most > 1:
+        desc = ["%d handler invocations on one path" % most] + desc
+    L.require(R, F, name, "the handler registered for the DLCI is invoked once with (dlci, msg) unchanged",
+              [(pn[0], pn)], desc, line=line)
 
 
 def r4_sendmsg(L, tu):
@@ -3409,6 +3620,7 @@ def run(L, tier):
         L.stage(r1_bounded_store, L, tu, tag, size, rx)
         L.stage(r1_capacity, L, tu, tag, size)
         L.stage(r4_index_bounds, L, tu, tag)
+        L.stage(r4_dispatch, L, tu, tag)
         L.stage(r4_queue_scan, L, tu, tx)
         L.stage(r4_sendmsg, L, tu)
         L.stage(r6_pull_contract, L, tu, tag, tx)
